@@ -247,6 +247,65 @@ def n20_for_enumerate_zip(src, log):
         log.append(f"N20 for (({I}, {X}), {Y}) in {a}.iter().enumerate().zip({b}.iter()) -> index loop over the shorter length")
 
 
+def n21_each_worker(src, log):
+    """visiting every element of a vector of trait objects by unique reference:
+         V.iter_mut().for_each(|P: T| { .. P.m(ARGS) .. });      and      for P in &mut V { .. P.m(ARGS) .. }
+       ->  { let mut __vx_k: usize = 0; while __vx_k < V.len() { .. vx_elem_m(&mut V, __vx_k, ARGS) .. ; __vx_k = __vx_k + 1; } }
+    (std: both forms visit the elements in index order, once each; a method call through the element reference becomes a
+    helper over (vector, index), whose contract is written in the unit: Verus has no `&mut v[i]`)"""
+    def sub_calls(body, p, vec):
+        bt = lex(body)
+        eds = []
+        for i, t in enumerate(bt):
+            if t.kind == "ident" and t.text == p and (i == 0 or bt[i - 1].text != "."):
+                if not (i + 3 < len(bt) and bt[i + 1].text == "." and bt[i + 2].kind == "ident" and bt[i + 3].text == "("):
+                    raise Unsupported(f"n21: the element `{p}` is used other than as a method receiver")
+                o = i + 3
+                args = body[bt[o].end:bt[bt[o].mate].start].strip()
+                eds.append((t.start, bt[bt[o].mate].end, f"vx_elem_{bt[i + 2].text}(&mut {vec}, __vx_k" + (", " + args if args else "") + ")"))
+        return _apply(body, eds)
+    while True:
+        toks = lex(src)
+        hit = None
+        for i, t in enumerate(toks):
+            # for P in &mut V { BODY }
+            if t.text == "for" and t.kind == "ident" and i + 4 < len(toks) and toks[i + 1].kind == "ident" and toks[i + 2].text == "in" \
+                    and toks[i + 3].text == "&" and toks[i + 4].text == "mut":
+                k = i + 5
+                while k < len(toks) and not (toks[k].text == "{" and toks[k].depth == t.depth):
+                    if toks[k].kind == "open":
+                        k = toks[k].mate
+                    k += 1
+                vec = src[toks[i + 5].start:toks[k - 1].end]
+                body = src[toks[k].end:toks[toks[k].mate].start]
+                hit = (toks[i].start, toks[toks[k].mate].end, toks[i + 1].text, vec, body, "")
+                break
+            # V.iter_mut().for_each(|P: T| { BODY })
+            if t.text == "for_each" and i >= 5 and [x.text for x in toks[i - 5:i]] == [".", "iter_mut", "(", ")", "."] and toks[i + 1].text == "(":
+                cs = _chain_start(toks, i - 5)
+                vec = src[toks[cs].start:toks[i - 6].end]
+                o = i + 1
+                if toks[o + 1].text != "|":
+                    continue
+                b1 = next(x for x in range(o + 2, toks[o].mate) if toks[x].text == "|" and toks[x].depth == toks[o + 1].depth)
+                p = toks[o + 2].text
+                bo = b1 + 1
+                if toks[bo].text != "{":
+                    continue
+                body = src[toks[bo].end:toks[toks[bo].mate].start]
+                end = toks[o].mate
+                semi = ";" if end + 1 < len(toks) and toks[end + 1].text == ";" else ""
+                hit = (toks[cs].start, toks[end + 1].end if semi else toks[end].end, p, vec, body, semi)
+                break
+        if hit is None:
+            return src
+        a, b, p, vec, body, semi = hit
+        nb = sub_calls(body, p, vec)
+        rep = f"{{ let mut __vx_k: usize = 0; while __vx_k < {vec}.len() {{ {nb} __vx_k = __vx_k + 1; }} }}"
+        src = src[:a] + rep + src[b:]
+        log.append(f"N21 every element of {vec} visited by index; calls through the element -> vx_elem_*(&mut {vec}, k, ..)")
+
+
 def find_closures(src, toks):
     """Yield (bar0, bar1, body_start_tok, body_end_tok_inclusive, has_block) for every closure."""
     res = []
@@ -1077,6 +1136,33 @@ def n16_option_map(src, log):
         log.append(f"N16 {recv}.map(|{param}| ..) -> match on the Option")
 
 
+def n22_option_map_or(src, log):
+    """`OPT.map_or(D, |P| E)`  ->  `(match OPT { Some(P) => E, None => D })`   (definition of Option::map_or)
+    OPT is a postfix chain; P a plain identifier, optionally typed (the annotation is dropped)."""
+    while True:
+        toks = lex(src)
+        hit = None
+        for i, t in enumerate(toks):
+            if t.text == "map_or" and i >= 2 and toks[i - 1].text == "." and toks[i + 1].text == "(":
+                o = i + 1
+                args = _split_args(src, toks, o)
+                if len(args) != 2 or not args[1].strip().startswith("|"):
+                    continue
+                cs = _chain_start(toks, i - 1)
+                recv = src[toks[cs].start:toks[i - 2].end]
+                cl = args[1].strip()
+                bar = cl.index("|", 1)
+                param = cl[1:bar].split(":")[0].strip()
+                body = cl[bar + 1:].strip()
+                hit = (toks[cs].start, toks[toks[o].mate].end, recv, param, body, args[0].strip())
+                break
+        if hit is None:
+            return src
+        a, b, recv, param, body, dflt = hit
+        src = src[:a] + f"(match {recv} {{ Some({param}) => {body}, None => {dflt} }})" + src[b:]
+        log.append(f"N22 {recv}.map_or({dflt}, |{param}| ..) -> match on the Option")
+
+
 def nctxdata(src, log):
     """`let D = R.get_ctxdata(); .. D.f ..` -> `.. R.get_ctxdata().f ..` (the local is an alias of the `&mut ContextData`
     the accessor returns; inlining the alias lets the reduced Context replace the accessor by its field)"""
@@ -1359,6 +1445,10 @@ def normalise(src, rules, log, ctx=None):
             src = n7_sum(src, log)
         elif r == "n10":
             src = n10_entry_append(src, log)
+        elif r == "n22":
+            src = n22_option_map_or(src, log)
+        elif r == "n21":
+            src = n21_each_worker(src, log)
         elif r == "n20":
             src = n20_for_enumerate_zip(src, log)
         elif r == "n7forenum":
